@@ -520,6 +520,104 @@ def check_clamp(ctx: Ctx) -> None:
                 ctx.spec_fail("clamp:in-range", {"req": q}, {"value": v}, size=1)
 
 
+# ------------------------------------------------------------------ determinism across interpreter processes
+def _run_pair(inp: dict) -> dict:
+    """layout and force_algorithm on one instance: centres as hex strings (bit patterns), or the exception class."""
+    out = {}
+    for what in ("layout", "force"):
+        try:
+            die = build(inp)
+            if what == "layout":
+                d, _ = FR.fruchterman_reingold_layout(die, inp["kappa"], max_iter=inp["iters"])
+            else:
+                d, _ = FR.force_algorithm(die, max_iter=inp["force_iters"])
+            out[what] = [None if m.center is None else [f2hex(m.center.x), f2hex(m.center.y)] for m in d.netlist.modules]
+        except Exception as ex:
+            out[what] = "err:" + type(ex).__name__
+    return out
+
+
+def gen_symmetric(rng) -> dict:
+    """nets of arity 3..6, several modules equal and coincident (a symmetric, unstable start: rounding decides)."""
+    inp = gen_instance(rng, big=False)
+    W, H = inp["W"], inp["H"]
+    mods = [m for m in inp["mods"] if m["kind"] != "hard"][:6]
+    names_used = {m["name"] for m in mods}
+    extra = ["Xa", "Yb", "Pq", "Qr", "Rs", "Zt", "Ku", "Lv"]
+    rng.shuffle(extra)
+    c = [rng.uniform(0.2 * W, 0.8 * W), rng.uniform(0.2 * H, 0.8 * H)]
+    a = round(rng.uniform(0.5, 3.0), 1)
+    twins = rng.randint(2, 3)
+    while len(mods) < 5 or sum(m["kind"] == "soft" for m in mods) < twins + 2:
+        nm = extra.pop()
+        if nm not in names_used:
+            mods.append({"name": nm, "kind": "soft", "area": round(rng.uniform(0.5, 4), 1), "center": [rng.uniform(0, W), rng.uniform(0, H)]})
+    soft = [m for m in mods if m["kind"] == "soft"]
+    for m in soft[:twins]:  # equal, coincident modules
+        m["area"], m["center"] = a, list(c)
+    names = [m["name"] for m in mods]
+    nets = []
+    others = [n for n in names if n not in {m["name"] for m in soft[:twins]}]
+    first = soft[0]["name"]
+    k = min(len(others), rng.randint(2, 5))
+    hub = rng.sample(others, k)
+    w = rng.choice([1.0, 2.0, 0.5])
+    nets.append([first] + hub + [w])  # one twin on a (k+1)-pin net ...
+    for t in soft[1:twins]:
+        if rng.random() < 0.5:
+            nets.append([t["name"]] + hub + [w])  # ... another twin on the same pins
+        else:
+            nets += [[t["name"], h, w] for h in hub]  # ... or on 2-pin nets of the same weight
+    for _ in range(rng.randint(1, 4)):
+        nets.append(rng.sample(names, min(len(names), rng.randint(3, 6))) + [rng.choice([1.0, 1.5, 3.0])])
+    return {"W": W, "H": H, "mods": mods, "nets": nets, "centers": ["keep"] * len(mods), "history": "yaml", "history_pick": 0,
+            "kappa": rng.choice(KAPPAS), "iters": rng.randint(3, 25), "force_iters": rng.randint(2, 6), "stream": "hashseed"}
+
+
+def check_hash_seeds(ctx: Ctx, inputs: list, seeds=(0, 1, 2, 3, 4)) -> None:
+    """`It is deterministic`: the result must not depend on the interpreter's string-hash seed (set / dict order)."""
+    import json
+    import os
+    import subprocess
+    import sys
+    import vcheck
+    if not inputs:
+        return
+    here = [_run_pair(inp) for inp in inputs]
+    runs = {"in-process": here}
+    env = dict(os.environ)
+    env["PYTHONPATH"] = os.pathsep.join([os.path.join(vcheck.VERIF, "harness"), vcheck.REPO, env.get("PYTHONPATH", "")])
+    env["FRAME_REPO"] = vcheck.REPO
+    for hs in seeds:
+        env["PYTHONHASHSEED"] = str(hs)
+        try:
+            pr = subprocess.run([sys.executable, os.path.abspath(__file__), "--hash-worker"], input=json.dumps(inputs),
+                                capture_output=True, text=True, timeout=1800, env=env)
+            runs[f"PYTHONHASHSEED={hs}"] = json.loads(pr.stdout)
+        except Exception as ex:  # infrastructure, not a verdict
+            ctx.notes.append(f"hash-seed worker {hs} failed: {type(ex).__name__}")
+    for i, inp in enumerate(inputs):
+        ctx.case("hashseed", (i, str(inp)[:400]), True)
+        ctx.count(f"hashseed-max-arity-{max(len([x for x in e if isinstance(x, str)]) for e in inp['nets'])}")
+        for what in ("layout", "force"):
+            vals = {k: v[i][what] for k, v in runs.items() if i < len(v)}
+            ref = vals["in-process"]
+            if isinstance(ref, str) and ref.startswith("err") and "C17" not in ref:
+                if ref != "err:ValueError":
+                    ctx.spec_fail("operation-raised", inp, {"op": what, "exception": ref}, size=len(inp["mods"]))
+                continue
+            diff = sorted(k for k, v in vals.items() if v != ref)
+            if diff:
+                def dist(a, b):
+                    try:
+                        return max(abs(hex2f(x[j]) - hex2f(y[j])) for x, y in zip(a, b) if x and y for j in (0, 1))
+                    except Exception:
+                        return None
+                ctx.spec_fail("deterministic:across-hash-seeds", inp,
+                              {"op": what, "differs_in": diff, "max_centre_distance": max((dist(ref, vals[k]) or 0.0) for k in diff)},
+                              size=len(inp["mods"]))
+
+
 # ------------------------------------------------------------------ entry points
 def run(ctx: Ctx) -> None:
     rng = ctx.rng
@@ -531,7 +629,9 @@ def run(ctx: Ctx) -> None:
                 "or 2..5 vs the Float model to 1e-9*size (+ wire length / overlap of the result); `long-run` = 6..30 (thorough 100) "
                 "iterations checked through the clauses; `force` = force_algorithm with 1..12 iterations, cost table recomputed, "
                 "model compared for <= 3 iterations; `clamp` = scalar clamp incl. NaN/inf; `argmin` = the selection loop on cost lists "
-                "incl. inf/NaN; `layout-kappa0` = kappa = 0 (outside the property): same exception class as the model. Non-trivial = at least one movable module.")
+                "incl. inf/NaN; `layout-kappa0` = kappa = 0 (outside the property): same exception class as the model; `hashseed` = layout and force_algorithm on "
+                "instances with nets of arity 3..6 and 2-3 equal coincident modules, run in-process and in 5 interpreter processes with "
+                "PYTHONHASHSEED 0..4: bit-identical centres required. Non-trivial = at least one movable module.")
     ctx.assumptions += [
         "kappa > 0 (kappa = 0 divides by zero) and at least one module",
         "input centres of fixed modules lie inside the die (then 'every centre inside the die' follows from 'fixed not moved')",
@@ -570,10 +670,14 @@ def run(ctx: Ctx) -> None:
         inp["iters"] = rng.choice([1, 1, 2, 3, 5, 8, 12])
         inp["stream"] = "force"
         check_force(ctx, inp, corr=inp["iters"] <= 3)
+    check_hash_seeds(ctx, [gen_symmetric(rng) for _ in range(ctx.n(14, 80))])
 
 
 def replay(ctx: Ctx, body: dict) -> None:
     inp = body["input"]
+    if inp.get("stream") == "hashseed":
+        check_hash_seeds(ctx, [inp], seeds=(0, 1, 2, 3, 4, 5, 6, 7))
+        return
     if "req" in inp:
         rep = ctx.model([inp["req"]])
         print("clamp model reply:", rep)
@@ -587,3 +691,11 @@ def replay(ctx: Ctx, body: dict) -> None:
         check_long_run(ctx, inp)
     else:
         check_force(ctx, inp, corr=inp["iters"] <= 3)
+
+
+if __name__ == "__main__":
+    import json as _json
+    import sys as _sys
+    if "--hash-worker" in _sys.argv:
+        _inputs = _json.loads(_sys.stdin.read())
+        print(_json.dumps([_run_pair(_i) for _i in _inputs]))
